@@ -16,8 +16,10 @@ src/furax (the abstract root excluded: it has no registration of its own) one ro
         `cls.out_structure is cls.in_structure` (decorator `square`).
 
 plus, read from the source of furax/_base/core.py with `ast`: the tags that get a False default
-(`_monkey_patch_operator`) and what every decorator does (tag it registers, decorators it calls,
-class attributes it assigns).
+(`_monkey_patch_operator`), what every decorator does (tag it registers, decorators it calls,
+class attributes it assigns), and the public construction paths of the (tagged) HomothetyOperator:
+the scalar check and the operator built by `__rmul__` / `__truediv__` (gen_scale_paths), with
+`__mul__`, `__neg__`, `__sub__` going through them.
 
 Fails closed (lib.Tie) on: an operator class the model does not know, a tag predicate exposed by
 lineax that is neither modelled nor known to be ignored by furax, a dispatch target that is not one of
@@ -159,6 +161,60 @@ def decorators_from_source(core_path: Path):
     return defaults, decos
 
 
+def scale_paths_from_source(core_path: Path):
+    """The public construction paths of HomothetyOperator in AbstractLinearOperator: for `__rmul__` and
+    `__truediv__` the statements must be exactly
+
+        other = jnp.asarray(other)
+        if <guard>: raise <Exception>(...)
+        return HomothetyOperator(<value>, <structure>) @ self
+
+    -> [(method, guard, exception, value, structure)]; `__mul__` must return `other * self`,
+    `__neg__` `(-1) * self`, and `__sub__` must end with `self + -other` (so that they all go through
+    `__rmul__`).  Anything else fails closed."""
+    tree = ast.parse(core_path.read_text())
+    cls = next((n for n in tree.body if isinstance(n, ast.ClassDef) and n.name == 'AbstractLinearOperator'), None)
+    if cls is None:
+        raise Tie('class AbstractLinearOperator not found in core.py')
+    meths = {n.name: n for n in cls.body if isinstance(n, ast.FunctionDef)}
+
+    def body(name):
+        if name not in meths:
+            raise Tie(f'AbstractLinearOperator.{name} not found')
+        return [st for st in meths[name].body
+                if not (isinstance(st, ast.Expr) and isinstance(st.value, ast.Constant) and isinstance(st.value.value, str))]
+
+    out = []
+    for name in ('__rmul__', '__truediv__'):
+        b = body(name)
+        if [a.arg for a in meths[name].args.args] != ['self', 'other']:
+            raise Tie(f'{name}: unexpected signature')
+        if len(b) != 3:
+            raise Tie(f'{name}: {len(b)} statements instead of asarray / guard / return')
+        if not (isinstance(b[0], ast.Assign) and ast.unparse(b[0]) == 'other = jnp.asarray(other)'):
+            raise Tie(f'{name}: first statement is {ast.unparse(b[0])[:80]!r}')
+        g = b[1]
+        if not (isinstance(g, ast.If) and not g.orelse and len(g.body) == 1 and isinstance(g.body[0], ast.Raise)
+                and isinstance(g.body[0].exc, ast.Call) and isinstance(g.body[0].exc.func, ast.Name)):
+            raise Tie(f'{name}: second statement is not `if <guard>: raise <Exception>(...)`')
+        r = b[2]
+        if not (isinstance(r, ast.Return) and isinstance(r.value, ast.BinOp) and isinstance(r.value.op, ast.MatMult)
+                and ast.unparse(r.value.right) == 'self' and isinstance(r.value.left, ast.Call)
+                and ast.unparse(r.value.left.func) == 'HomothetyOperator' and len(r.value.left.args) == 2
+                and not r.value.left.keywords):
+            raise Tie(f'{name}: does not return HomothetyOperator(value, structure) @ self')
+        out.append((name, ast.unparse(g.test), g.body[0].exc.func.id, ast.unparse(r.value.left.args[0]),
+                    ast.unparse(r.value.left.args[1])))
+    for name, want in (('__mul__', ['return other * self']), ('__neg__', ['return -1 * self']), ('__pos__', ['return self'])):
+        got = [ast.unparse(st) for st in body(name)]
+        if got != want:
+            raise Tie(f'{name}: body {got!r} instead of {want!r}')
+    sub = [ast.unparse(st) for st in body('__sub__')]
+    if 'result: AbstractLinearOperator = self + -other' not in sub or sub[-1] != 'return result':
+        raise Tie(f'__sub__: does not return self + -other: {sub[-2:]!r}')
+    return out
+
+
 def cstr(s: str) -> str:
     return '"' + s.replace('"', '""') + '"%string'
 
@@ -212,6 +268,9 @@ def generate(gen_dir: Path) -> dict:
         sets_t = clist([f'({cstr(a)}, {cstr(v)})' for a, v in sets])
         deco_terms.append(f'({cstr(name)}, ({clist([cstr(t) for t in tags])}, ({clist([cstr(c) for c in calls])}, {sets_t})))')
 
+    paths = scale_paths_from_source(core)
+    path_terms = [f'({cstr(n)}, ({cstr(g)}, ({cstr(e)}, ({cstr(v)}, {cstr(st)}))))' for n, g, e, v, st in paths]
+
     text = f'''(* GENERATED by /verif/tools/translate/tags.py from the imported furax package ({Path(furax.__file__).parent}) - do not edit *)
 From Coq Require Import List String.
 From Furax Require Import Model.Op.
@@ -220,10 +279,11 @@ Definition gen_tagq_names : list string := {clist([cstr(t) for t in TAGS + EFFEC
 Definition gen_tag_table : list (cls * list bool) := {clist(rows)}.
 Definition gen_default_tags : list string := {clist([cstr(t) for t in defaults])}.
 Definition gen_decorators : list (string * (list string * (list string * list (string * string)))) := {clist(deco_terms)}.
+Definition gen_scale_paths : list (string * (string * (string * (string * string)))) := {clist(path_terms)}.
 '''
     gen_dir.mkdir(parents=True, exist_ok=True)
     (gen_dir / 'TagTable.v').write_text(text)
-    return {'rows': info, 'defaults': defaults, 'decorators': {k: v for k, v in decos.items()}}
+    return {'rows': info, 'defaults': defaults, 'decorators': {k: v for k, v in decos.items()}, 'scale_paths': paths}
 
 
 if __name__ == '__main__':
